@@ -18,15 +18,15 @@ CLAIMED = {
         note='Partial. Four genuine defects were found on the pinned tree and repaired in /repo (break out of a loop ran all enclosing defers; continue ran none; a break to a block ran also the defers of that block that were never reached; a break inside a while condition ran all enclosing defers). Assumed: the recursive compile_expr emits the code of its expression at the insertion point and keeps its own pushes and pops balanced (stub); break / continue name only enclosing labels (hir); a deferred expression does not jump out of itself; Cranelift control flow shims. Not covered: the `return` call site, hir::lower_defer / resolve_last_label, that the emitted code of a defer runs once at run time when blocks are re-entered (loops re-run their body code, which is the intended meaning).',
         ref='DESIGN.md 5 (C03)'),
     'C08': dict(
-        text='Deductive proof over the real text of compile_num_binary, cast_num, cast_ty_to_cranelift, NumberType::bit_width and the finalize_int closure: for every numeric type pair and every operand bit pattern the emitted instruction sequence denotes the two\'s-complement result the statement prescribes.',
-        note='Trusted: Cranelift instruction semantics as written in shims/verus/clif.rs; FINAL_TYS table read; float arithmetic uninterpreted; operands are assumed to carry the operand type; i128<->float only for values that fit 64 bits. Not covered: which type the checker picks for an operation, comptime evaluation path.',
+        text='Deductive proof over the real text of compile_num_binary, cast_num, cast_ty_to_cranelift, NumberType::bit_width and the finalize_int closure: for every numeric type pair and every operand bit pattern the emitted instruction sequence denotes the two\'s-complement result the statement prescribes. BOUNDED stand-in numeric_exec: generated programs run through the compiler built from the tree -- all pairs of 10 boundary values x 15 operators, 4 shift amounts and all 100 cast pairs over the 10 integer types up to 64 bits, int<->float round trips, 16 float values x 10 targets, mixed-width operands and 70 evaluations inside comptime, compared with Python integers.',
+        note='Trusted: Cranelift instruction semantics as written in shims/verus/clif.rs; FINAL_TYS table read; float arithmetic uninterpreted; operands are assumed to carry the operand type; i128<->float only for values that fit 64 bits. Which type the checker picks for an operation and the comptime evaluation path are covered only by the bounded stand-in (boundary values).',
         ref='DESIGN.md 5 (C08)'),
     'C09': dict(
-        text='Deductive proof that Ty::get_max_int_size accepts exactly the u64 literals that fit each integer type (all widths, distinct wrappers), and that finalize_int maps {int}/{uint} to i32. The checker\'s call sites (replace_weak_tys / expect_match) are outside the verifier\'s reach and get a BOUNDED stand-in on the real front end: 12 integer types x the boundary values of the quantifier x 11 (quick) / 16 (thorough) contexts in which a literal meets its type.',
-        note='Partial claim: the range limit (proved), the defaulting clause (proved) and the call-site clause (bounded, not a proof). lower_int_literal / escapes / float literals / the runtime value of an accepted literal are not under contract; isize/usize are taken as 64-bit.',
+        text='Deductive proof that Ty::get_max_int_size accepts exactly the u64 literals that fit each integer type (all widths, distinct wrappers), and that finalize_int maps {int}/{uint} to i32. The checker\'s call sites (replace_weak_tys / expect_match) are outside the verifier\'s reach and get a BOUNDED stand-in on the real front end: 12 integer types x the boundary values of the quantifier x 11 (quick) / 16 (thorough) contexts in which a literal meets its type. BOUNDED stand-in literal_exec (value clause): every spelling (decimal, separators, exponents, hex lower / upper / zero-padded, binary) of 12 small and 27 boundary values, annotated, unannotated, in arithmetic and as globals, every char escape and a string with every escape, printed by a program compiled by the compiler built from the tree and compared with the value spelled.',
+        note='Partial claim: the range limit (proved), the defaulting clause (proved) and the call-site clause (bounded, not a proof). lower_int_literal / escapes / the runtime value of an accepted literal are covered only by the bounded stand-in literal_exec; float literals are not covered; isize/usize are taken as 64-bit.',
         ref='DESIGN.md 5 (C09)'),
     'C10': dict(
-        text='Deductive proof over the real text of compile_unreachable, compile_unreachablez, the part of the Expr::Index arm of compile_expr_with_args after its operands are compiled, and the tagged branch of #unwrap (both lifted mechanically), plus Ty::{as_array,is_array,is_slice} and FinalTy::into_real_type: for every array/slice type, index type and index value, the emitted code compares the index -- read by its own signedness and widened to 64 bits -- unsigned with the length (the array type\'s length, or the first word of the slice value); everything after the comparison, including the element access at data + index*stride(element), is emitted in a block reached only when index < length; the other edge runs exactly puts(message); exit(1); trap and no store; the only reads before the check are the two words of the slice value. #unwrap on a tagged sum type compares the stored tag byte at the layout\'s discriminant offset with the requested variant\'s discriminant and reads the payload only behind that check. The compile-time clause (a literal index out of range for a fixed-size array is rejected) sits inside infer_expr and gets a BOUNDED stand-in on the real front end: array lengths x literal indices {0, n-1, n, n+1, n+4} x 6 ways of reaching the array.',
+        text='Deductive proof over the real text of compile_unreachable, compile_unreachablez, the part of the Expr::Index arm of compile_expr_with_args after its operands are compiled, and the tagged branch of #unwrap (both lifted mechanically), plus Ty::{as_array,is_array,is_slice} and FinalTy::into_real_type: for every array/slice type, index type and index value, the emitted code compares the index -- read by its own signedness and widened to 64 bits -- unsigned with the length (the array type\'s length, or the first word of the slice value); everything after the comparison, including the element access at data + index*stride(element), is emitted in a block reached only when index < length; the other edge runs exactly puts(message); exit(1); trap and no store; the only reads before the check are the two words of the slice value. #unwrap on a tagged sum type compares the stored tag byte at the layout\'s discriminant offset with the requested variant\'s discriminant and reads the payload only behind that check. The compile-time clause (a literal index out of range for a fixed-size array is rejected) sits inside infer_expr and gets a BOUNDED stand-in on the real front end: array lengths x literal indices {0, n-1, n, n+1, n+4} x 6 ways of reaching the array. BOUNDED stand-in index_exec: one generated program compiled by the compiler built from the tree and run once per (access, index): arrays, slices, pointers to arrays and nested arrays read and written with every index in 0..len+4 (usize and u8), #unwrap of an enum, ?u32, ?^u32 and str!u32 with every variant -- in range exactly that element, otherwise the message, exit status 1 and nothing after the access.',
         note='Trusted: Cranelift control-flow shim (facts of a block = facts of its single incoming edge, shims/verus/clif_cf.rs), libc puts/exit, cast_ty_to_cranelift contract (proved in unit numeric), layout contracts (unit layout). Assumed path conditions of the lifted ranges: operands carry their types, source is the address of the array/slice value, a slice value holds (length, data pointer). Not covered: the recursive compile_expr calls that produce the operands, the pointer-deref loop in front of the range, the nullable-pointer branch of #unwrap, get_tagged_union_discrim, unwrap_sum_ty (assumed to read at most the payload), message texts.',
         ref='DESIGN.md 5 (C10)'),
     'C11': dict(
@@ -62,8 +62,8 @@ CLAIMED = {
         note='Assumed: the indexmap contract (shims/verus/indexmap.rs); T::clone is the identity; generic parameters instantiated at P=Q=U=T (the only use the checker makes); iterator chains of the three observers replaced by shims that take the same closure; the usage protocol "a dependency is only registered on an item that is pending or was never scheduled" is a PRECONDITION of insert/insert_dep (no stale edges) and is not proved about InferenceCtx::finish; extend/insert_deps/pop/pop_all are not under contract.',
         ref='DESIGN.md 5 (C26)'),
     'C27': dict(
-        text='Deductive proof over the real text of add_part and MangledPartKind::to_code: add_part appends exactly <decimal length><text>, with an underscore put in front of texts that start with a digit or an underscore; this per-part encoding is proved injective and uniquely decodable when followed by anything (prefix-freeness lemma), and kind letters are pairwise different upper-case letters. The descriptors built by create_mangled_for_naive_global / _lambda are the own part followed by EVERY part passed on by the caller (generic ids, comptime indices): nothing that tells two definitions apart is dropped.',
-        note='Partial: the list of parts (create_mangled_for_* iterator chains), the table-of-contents assembly in create_mangled_for_file and FileName::get_components (which maps `.` to `-`: `a.b/` and `a-b/` still collide) are not under contract. Assumed: usize::to_string is a digits-only decimal text without leading zero (axioms D1-D3); part texts are ASCII.',
+        text='Deductive proof over the real text of add_part and MangledPartKind::to_code: add_part appends exactly <decimal length><text>, with an underscore put in front of texts that start with a digit or an underscore; this per-part encoding is proved injective and uniquely decodable when followed by anything (prefix-freeness lemma), and kind letters are pairwise different upper-case letters. The descriptors built by create_mangled_for_naive_global / _lambda are the own part followed by EVERY part passed on by the caller (generic ids, comptime indices): nothing that tells two definitions apart is dropped. BOUNDED stand-in mangle_file_bounded: the real text of create_mangled_for_file (table of contents + parts) compiled by rustc with a stand-in for get_components: all descriptors (module name or none, <= 2/3 path pieces over 6 names, 1..2 final parts over 5 kinds x 3 texts) get pairwise different names.',
+        note='Partial: the list of parts (create_mangled_for_* iterator chains), FileName::get_components (which maps `.` to `-`: `a.b/` and `a-b/` still collide) are not under contract. Assumed: usize::to_string is a digits-only decimal text without leading zero (axioms D1-D3); part texts are ASCII.',
         ref='DESIGN.md 5 (C27)'),
 }
 
